@@ -434,6 +434,12 @@ def run(ck: Check) -> None:
     from . import c01_placeholder
 
     guard.campaign(ck, c01_placeholder.campaign_placeholders, 300 if quick else 4000)
+    # the import block: modules that keep few or no names of an import group; the real Imports objects vs the model
+    # (imports_no_empty_group / dump_lines_have_names)
+    from . import c01_imports
+
+    ck.search_hooks.insert(0, c01_imports.search)
+    guard.campaign(ck, c01_imports.campaign_import_groups, run_case, random_opts, 250 if quick else 3000)
     guard.campaign(ck, _campaign_templates, quick)
     guard.campaign(ck, tpl_search.self_test)
     probe, PROBE = PROBE, None
